@@ -405,7 +405,7 @@ def context(mode=None, suppressed=None):
     return Agg('typstyle_core::pretty::context::Context', None, [md, TOP if suppressed is None else Const(suppressed)])
 
 
-def evaluate_sequence(w, b, param, parent_kind, seq, no_inline=None, max_paths=4000, ctx=None, extra=None, hooks=None, with_wholes=False, edge_hint=None, peel=None, respect_kinds=False):
+def evaluate_sequence(w, b, param, parent_kind, seq, no_inline=None, max_paths=4000, ctx=None, extra=None, hooks=None, with_wholes=False, edge_hint=None, peel=None, respect_kinds=False, from_start=False):
     """evaluate consecutive iterations <seq[0], seq[1], ..> of every loop over syntax nodes in converter b (state carried
     from one iteration to the next, all other state unknown); returns [(loop, [events of step 0], [events of step 1], ..)]"""
     ip = Interp(w, max_depth=12, max_paths=max_paths, max_steps=200000)
@@ -433,6 +433,8 @@ def evaluate_sequence(w, b, param, parent_kind, seq, no_inline=None, max_paths=4
         kinds = loop_kinds_override(b.short, f.body.short, depth, True, dflt)
         if respect_kinds and kinds is not None and isinstance(seq[0], Node) and seq[0].kind not in kinds:
             return []         # this loop iterates a part of the children in which the first item of the sequence cannot occur
+        if from_start:
+            return ('seq', list(seq), 'from-start')
         return ('seq', list(seq))
     ip.loop_items_cb = items
     if edge_hint:
